@@ -80,6 +80,31 @@ def run(ctx):
         ctx.ob("R1", "%s#%s" % (short_id(f.id), nm), ok,
                what="%s does not compute its deltas with %s" % (short_id(f.id), nm), where=f.loc())
 
+    # ---- R4 parallel arrays stay parallel: a chunk stores destination ids and edge ids in two arrays whose i-th
+    # entries belong together. If compress() reorders (sorts) anything on the way, both codec inputs must come out of
+    # the same reordered sequence - sorting one array alone re-pairs every edge with another destination.
+    ac = P.fn("AdjacencyChunk::compress")
+    acx = FlowCx(P, ac)
+    enc = [(bi, t) for bi, t in ac.calls() if short_id(callee_name(t)) in ("DeltaBitPacked::encode", "BitPackedInts::pack", "DeltaEncoding::encode")]
+    ctx.floor("R4", len(enc), 2, "codec inputs in AdjacencyChunk::compress")
+    sorted_names = set()
+    for bi, t in ac.calls():
+        if callee_name(t).split("::")[-1] in ("sort", "sort_by", "sort_by_key", "sort_unstable", "sort_unstable_by", "sort_unstable_by_key",
+                                              "reverse", "dedup", "retain", "swap", "rotate_left", "rotate_right") and t["args"]:
+            sorted_names |= {x for x in acx.tags(t["args"][0]) if x.startswith("var:") and x != "var:self"}
+    bad = []
+    for bi, t in enc:
+        tg = acx.tags(t["args"][0])
+        if sorted_names and not (tg & sorted_names):
+            bad.append(short_id(callee_name(t)))
+    ctx.ob("R4", "AdjacencyChunk::compress#co-sorted", not bad,
+           what="AdjacencyChunk::compress reorders %s but feeds %s from a sequence that was not reordered with it: after "
+                "decompression each edge id is paired with another destination" % (sorted(sorted_names), bad), where=ac.loc())
+    # and the decoder zips the two arrays back in index order
+    ci = P.fn("CompressedAdjacencyChunk::iter")
+    ctx.ob("R4", "CompressedAdjacencyChunk::iter#zips", any((t["f"] or "").endswith("Iterator::zip") for g in P.family(ci) for bi, t in g.calls()),
+           what="CompressedAdjacencyChunk::iter does not zip destinations with edge ids", where=ci.loc())
+
     # ---- R2 dual hot/compressed reads
     n2 = 0
     for f in P.methods_of("PropertyColumn"):
